@@ -1425,4 +1425,112 @@ theorem composed_eval_result_fits (env : Nat → Shape) (p : Prog) {o : SInfo} {
     (hok : p.ok env) (ho : p.static = some o) (ht : p.shape env = some t) (hr : resolveEval o = some r) : r.admits t :=
   eval_result_buffer_fits (static_sound env p hok ho ht) hr
 
+/-! ## the OLDER resolver (`resolve_optype<array::eval_t, view_t, none_t>`, eval.hpp:888-948): the default of a bare
+    `array::eval(view)`.  It reuses the OPERAND's container for the result (NmVerif.StaticEval), so the statement of
+    `eval_result_buffer_fits` holds only where that container covers the view's knowledge; elsewhere it fails
+    (`old_eval_counterexample`, known finding C11.old-resolver-operand-container) -/
+
+theorem LeAll.trans' : ∀ {a b c : List Nat}, LeAll a b → LeAll b c → LeAll a c
+  | [], [], [], _, _ => trivial
+  | _ :: _, _ :: _, _ :: _, h1, h2 => ⟨Nat.le_trans h1.1 h2.1, LeAll.trans' h1.2 h2.2⟩
+  | [], [], _ :: _, _, h2 => by simp [LeAll] at h2
+  | _ :: _, _ :: _, [], _, h2 => by simp [LeAll] at h2
+  | [], _ :: _, _, h1, _ => by simp [LeAll] at h1
+  | _ :: _, [], _, h1, _ => by simp [LeAll] at h1
+
+theorem len?_sound {V : ShapeK} {s : Shape} {m : Nat} (hv : V.γ s) (hl : V.len? = some m) : s.length = m := by
+  cases V <;> simp only [ShapeK.len?, Option.some.injEq] at hl <;> simp only [ShapeK.γ] at hv
+  · subst hv; exact hl
+  · rw [(show LeAll s _ from hv).length_eq]; exact hl
+  · omega
+  · simp at hl
+  · simp at hl
+
+theorem shapeK_covers_sound {K V : ShapeK} {s : Shape} (hc : K.covers V = true) (hv : V.γ s) : K.γ s := by
+  cases K with
+  | dyn => trivial
+  | boundedDim b =>
+    cases V with
+    | boundedDim m => simp only [ShapeK.covers, decide_eq_true_eq] at hc; simp only [ShapeK.γ] at hv ⊢; omega
+    | const l => simp only [ShapeK.covers, ShapeK.len?, decide_eq_true_eq] at hc; simp only [ShapeK.γ] at hv ⊢; subst hv; exact hc
+    | clipped m =>
+      simp only [ShapeK.covers, ShapeK.len?, decide_eq_true_eq] at hc
+      simp only [ShapeK.γ] at hv ⊢; rw [(show LeAll s m from hv).length_eq]; exact hc
+    | fixedDim k => simp only [ShapeK.covers, ShapeK.len?, decide_eq_true_eq] at hc; simp only [ShapeK.γ] at hv ⊢; omega
+    | dyn => simp [ShapeK.covers, ShapeK.len?] at hc
+  | fixedDim n =>
+    simp only [ShapeK.covers, beq_iff_eq] at hc
+    exact len?_sound hv hc
+  | clipped mx =>
+    cases V with
+    | clipped m => simp only [ShapeK.covers, decide_eq_true_eq] at hc; exact LeAll.trans' (show LeAll s m from hv) hc
+    | const l => simp only [ShapeK.covers, decide_eq_true_eq] at hc; simp only [ShapeK.γ] at hv; subst hv; exact hc
+    | fixedDim k => simp [ShapeK.covers] at hc
+    | boundedDim k => simp [ShapeK.covers] at hc
+    | dyn => simp [ShapeK.covers] at hc
+  | const l =>
+    cases V with
+    | const l' => simp only [ShapeK.covers, beq_iff_eq] at hc; simp only [ShapeK.γ] at hv ⊢; rw [hv, hc]
+    | clipped m => simp [ShapeK.covers] at hc
+    | fixedDim k => simp [ShapeK.covers] at hc
+    | boundedDim k => simp [ShapeK.covers] at hc
+    | dyn => simp [ShapeK.covers] at hc
+
+theorem bufK_covers_sound {B : BufK} {z : SizeK} {n : Nat} (hc : B.covers z = true) (hz : z.γ n) : B.fits n := by
+  cases B with
+  | dyn => trivial
+  | fixed k =>
+    cases z <;> simp only [BufK.covers, beq_iff_eq] at hc <;> simp only [SizeK.γ] at hz <;> simp only [BufK.fits]
+    · omega
+    · simp at hc
+    · simp at hc
+    · omega
+  | bounded k =>
+    simp only [BufK.covers] at hc
+    cases hb : z.bound? with
+    | none => simp [hb] at hc
+    | some m =>
+      simp only [hb, decide_eq_true_eq] at hc
+      have := bound?_sound hz hb
+      simp only [BufK.fits]; omega
+
+/-- `eval_result_buffer_fits` for the older resolver, one array operand: whenever the container it picks covers the view's
+    static knowledge (always so when it falls back to `vector / vector`), every instance fits -/
+theorem old_eval_result_buffer_fits {a : OperK} {v : SInfo} {s : Shape} {r : ResK} (h : v.γ s)
+    (_hr : resolveEvalOld1 a v = some r) (hc : r.covers v = true) : r.admits s := by
+  simp only [ResK.covers, Bool.and_eq_true] at hc
+  exact ⟨shapeK_covers_sound hc.1 h.1, bufK_covers_sound hc.2 h.2⟩
+
+/-- the same for two array operands -/
+theorem old_eval2_result_buffer_fits {a b : OperK} {v : SInfo} {s : Shape} {r : ResK} (h : v.γ s)
+    (_hr : resolveEvalOld2 a b v = some r) (hc : r.covers v = true) : r.admits s := by
+  simp only [ResK.covers, Bool.and_eq_true] at hc
+  exact ⟨shapeK_covers_sound hc.1 h.1, bufK_covers_sound hc.2 h.2⟩
+
+/-- the fallback container always covers -/
+theorem old_eval_dynamic_covers (v : SInfo) : dynRes.covers v = true := by
+  cases hz : v.size <;> simp [dynRes, ResK.covers, ShapeK.covers, BufK.covers]
+
+example : resolveEvalOld1 ⟨.fixedDim 2, .dyn⟩ ⟨.fixedDim 2, .any⟩ = some ⟨.fixedDim 2, .dyn⟩ ∧
+    (ResK.mk (.fixedDim 2) .dyn).covers ⟨.fixedDim 2, .any⟩ = true ∧ (⟨.fixedDim 2, .any⟩ : SInfo).γ [3, 2] := by decide
+example : resolveEvalOld1 ⟨.const [2, 3], .fixed 6⟩ ⟨.const [3, 2], .known 6⟩ = some dynRes := by decide
+
+/-- the statement FAILS for the older resolver (genuine defect, replayed on the real headers):
+    `array::eval(view::tile(a, reps))` with `a : ndarray_t<vector<int>, static_vector<size_t,3>>` of shape (2,3) and four
+    repetitions: the view has rank 4 (bounded_dim 4), the resolver reuses the operand's type, whose shape container holds at
+    most 3 extents — the result cannot take the shape and the evaluator returns without writing.  Likewise
+    `array::eval(view::add(a, b))` for that `a` and a dynamic `b` of rank 4, and a tiled fixed-buffer operand (two operands of
+    DIFFERENT fixed ranks do not compile: the evaluator's shape comparison static_asserts). -/
+theorem old_eval_counterexample :
+    (transferTile (.rt 4) ⟨.boundedDim 3, .any⟩ = some ⟨.boundedDim 4, .any⟩ ∧
+     (⟨.boundedDim 4, .any⟩ : SInfo).γ [2, 1, 2, 3] ∧
+     resolveEvalOld1 ⟨.boundedDim 3, .dyn⟩ ⟨.boundedDim 4, .any⟩ = some ⟨.boundedDim 3, .dyn⟩ ∧
+     ¬ (ResK.mk (.boundedDim 3) .dyn).admits [2, 1, 2, 3]) ∧
+    (transferUfunc2 ⟨.boundedDim 3, .any⟩ ⟨.dyn, .any⟩ = some ⟨.dyn, .any⟩ ∧
+     resolveEvalOld2 ⟨.boundedDim 3, .dyn⟩ ⟨.dyn, .dyn⟩ ⟨.dyn, .any⟩ = some ⟨.boundedDim 3, .dyn⟩ ∧
+     ¬ (ResK.mk (.boundedDim 3) .dyn).admits [2, 2, 2, 3]) ∧
+    (transferTile (.rt 2) ⟨.fixedDim 2, .known 6⟩ = some ⟨.fixedDim 2, .any⟩ ∧
+     resolveEvalOld1 ⟨.fixedDim 2, .fixed 6⟩ ⟨.fixedDim 2, .any⟩ = some ⟨.fixedDim 2, .fixed 6⟩ ∧
+     ¬ (ResK.mk (.fixedDim 2) (.fixed 6)).admits [2, 6]) := by decide
+
 end NmVerif.Props.C11
